@@ -74,7 +74,7 @@ bool budget_trip(BudgetState &b, const char *kind) {
         ClaimedCounts cc = t_claim_fn();
         const uint64_t CAP = 1ull << 40;
         uint64_t claimed = std::min(cc.values, CAP), objects = std::min(cc.objects, CAP);
-        b.claimed_values = claimed; b.claimed_objects = objects;
+        b.claimed_values = claimed; b.claimed_objects = objects; b.claimed = cc;
         uint64_t nr = b.reads_at_data + claimed + 1 + 16;
         uint64_t nb = b.bytes_at_data + 4 * claimed + 1 + 64;
         uint64_t nh = 512 * b.file_size + (1u << 20) + 1024 * objects; // a named point / channel and its share of the containers, copied once on the way in
